@@ -311,3 +311,40 @@ def strict_source_roots(body, o, depth=12, seen=None):
     if not ds and not roots:
         roots.add(('local', body.names.get(l, l)))
     return roots
+
+
+def deep_sources(body, o, depth=8, seen=None):
+    """(names, callees, fields): user variable names, callee paths and Adt.field names a value is derived from, following
+    copies, borrows, aggregates' single payloads and the RECEIVER (arg0) of every call."""
+    if seen is None:
+        seen = set()
+    names, callees, fields = set(), set(), set()
+    if not is_local_op(o) or depth == 0:
+        return names, callees, fields
+    for p in o['p']:
+        if p.startswith('.') and not p[1:2].isdigit():
+            fields.add(p[1:])
+    l = o['l']
+    if l in body.names:
+        names.add(body.names[l])
+    if l in seen:
+        return names, callees, fields
+    seen.add(l)
+    for pos, st in defs_of(body, l):
+        subs = []
+        if st['k'] == 'assign':
+            rv = st['rv']
+            if rv['k'] in ('use', 'cast'):
+                subs.append(rv['o'])
+            elif rv['k'] in ('ref', 'rawptr'):
+                subs.append(rv['pl'])
+            elif rv['k'] == 'agg' and len(rv['ops']) == 1:
+                subs.append(rv['ops'][0])
+        elif st['k'] == 'call':
+            callees.add(callee_of(st) or callee_generic(st) or '?')
+            if st['args']:
+                subs.append(st['args'][0])
+        for sub in subs:
+            n2, c2, f2 = deep_sources(body, sub, depth - 1, seen)
+            names |= n2; callees |= c2; fields |= f2
+    return names, callees, fields
